@@ -157,8 +157,8 @@ def _unpack_sizes_agree(ctx: Ctx, fn: FuncInfo, call: ast.Call) -> Optional[bool
     from .. import codec as C
     from ..fold import Sym
 
-    if fn.name != "_deserialize_primitive":
-        return None
+    if fn.module.name != "pydsdl._serdes":
+        return None  # (the unpack may sit in a helper of the primitive decoder; the runs below go through the decoder itself)
     for width in (16, 32, 64):
         ft = C.type_sym(ctx, "FloatType", bit_length=width, cast_mode="CastMode.SATURATED", alignment_requirement=1, name="float%d" % width, inclusive_value_range=Sym(min=-1, max=1))
         try:
